@@ -62,14 +62,16 @@ R(kind, f, i) == [kind |-> kind, f |-> f, i |-> i]
 (* governed fields and the constants they are compared with *)
 AddrFieldsG == << "RekeyTo", "CloseRemainderTo", "AssetCloseTo", "Sender" >>
 ConstsOf(f) ==
-    CASE f = "Fee"           -> << IntC(0), IntC(1000), IntC(272000), IntC(272001) >>
+    \* the first four are the ordinary ones; 5 and 6 are boundary values (0, beyond the range)
+    CASE f = "Fee"           -> << IntC(0), IntC(1000), IntC(272000), IntC(272001), IntC(1), IntC(999999) >>
       [] f \in SeqToSet(AddrFieldsG)
-                             -> << Global("ZeroAddress"), Addr("A1"), Addr("ZERO"), Global("CreatorAddress") >>
-      [] f = "TypeEnum"      -> << NamedInt("pay"), IntC(4), NamedInt("appl"), IntC(2) >>
-      [] f = "OnCompletion"  -> << NamedInt("UpdateApplication"), IntC(5), NamedInt("NoOp"), IntC(4) >>
-      [] f = "ApplicationID" -> << IntC(0), IntC(7), IntC(0), IntC(0) >>
-      [] f = "GroupSize"     -> << IntC(1), IntC(2), IntC(3), IntC(16) >>
-      [] f = "GroupIndex"    -> << IntC(0), IntC(1), IntC(2), IntC(15) >>
+                             -> << Global("ZeroAddress"), Addr("A1"), Addr("ZERO"), Global("CreatorAddress"),
+                                   Addr("A2"), Addr("A1") >>
+      [] f = "TypeEnum"      -> << NamedInt("pay"), IntC(4), NamedInt("appl"), IntC(2), IntC(0), IntC(7) >>
+      [] f = "OnCompletion"  -> << NamedInt("UpdateApplication"), IntC(5), NamedInt("NoOp"), IntC(4), IntC(1), IntC(6) >>
+      [] f = "ApplicationID" -> << IntC(0), IntC(7), IntC(0), IntC(0), IntC(0), IntC(7) >>
+      [] f = "GroupSize"     -> << IntC(1), IntC(2), IntC(3), IntC(16), IntC(0), IntC(17) >>
+      [] f = "GroupIndex"    -> << IntC(0), IntC(1), IntC(2), IntC(15), IntC(16), IntC(7) >>
 
 CmpOps == << "==", "!=", "<", "<=", ">", ">=" >>
 (* operators that are type-correct for the field *)
@@ -100,7 +102,7 @@ FailTail(cons, region) == IF cons = "bz_fail" THEN << Lab("fail_" \o region), Op
 (* Skeletons.  K1 / K2 are statement sequences (already consumed checks), *)
 (* T1/T2 the fail tails for the main region / subroutine regions.          *)
 (* Each returns the program body after the pragma.                         *)
-NSkel == 22
+NSkel == 26
 Skel(j, K1, K2, Tm, Ts) ==
     CASE j = 1  -> K1 \o Approve \o Tm                                            \* straight line
       [] j = 2  -> K1 \o FreeCond(1) \o << Bz("else") >> \o Filler \o << B("join"), Lab("else") >> \o Filler
@@ -136,11 +138,20 @@ Skel(j, K1, K2, Tm, Ts) ==
       [] j = 21 -> << Callsub("sa") >> \o Approve \o Tm \o << Lab("sa") >> \o FreeCond(2) \o << Bz("sr") >> \o K1
                    \o << Op("retsub"), Lab("sr") >> \o K2 \o << Op("retsub") >> \o Ts  \* callee with two retsubs
       [] j = 22 -> K1 \o FreeCond(1) \o << Bnz("fin") >> \o Approve \o Tm \o << Lab("fin") >>  \* label at the very end: falls off with empty stack
+      [] j = 23 -> << Lab("head") >> \o K1 \o << Callsub("sa") >> \o FreeCond(1) \o << Bnz("head") >> \o Approve \o Tm
+                   \o << Lab("sa") >> \o FreeCond(2) \o << Bz("sr") >> \o Approve \o << Lab("sr"), Op("retsub") >>
+                                                                                  \* loop whose header block is a call site; callee may approve itself
+      [] j = 24 -> << Lab("head") >> \o FreeCond(1) \o << Bz("exit"), Callsub("sa"), B("head"), Lab("exit") >> \o Approve \o Tm
+                   \o << Lab("sa") >> \o K1 \o << Op("retsub") >> \o Ts           \* call inside a loop body
+      [] j = 25 -> << Callsub("sa") >> \o Approve \o Tm \o << Lab("sa"), Lab("head") >> \o FreeCond(1) \o << Bz("out") >> \o K1
+                   \o << B("head"), Lab("out"), Op("retsub") >> \o Ts               \* loop inside the callee
+      [] j = 26 -> << Callsub("sa") >> \o Approve \o Tm \o << Lab("sa") >> \o FreeCond(1) \o << Bz("base"), Callsub("sa"), Lab("base") >>
+                   \o K1 \o << Op("retsub") >> \o Ts                               \* recursive subroutine
 
-SkelUsesSub(j) == j \in {10, 11, 12, 13, 14, 15, 16, 17, 18, 20, 21}
+SkelUsesSub(j) == j \in {10, 11, 12, 13, 14, 15, 16, 17, 18, 20, 21, 23, 24, 25, 26}
 SkelUsesK2(j)  == j \in {4, 19, 20, 21}
 (* region in which hole 1 / hole 2 sits (for region-local fail labels)     *)
-Hole1Region(j) == IF j \in {10, 11, 12, 17, 18, 21} THEN "s" ELSE "m"
+Hole1Region(j) == IF j \in {10, 11, 12, 17, 18, 21, 24, 25, 26} THEN "s" ELSE "m"
 Hole2Region(j) == IF j = 21 THEN "s" ELSE "m"
 MinVersion(j)  == IF j \in {19} THEN 8 ELSE IF SkelUsesSub(j) \/ j \in {8, 9} THEN 4 ELSE 3
 
@@ -176,7 +187,7 @@ F1Case(fam, k, d) ==
                    cons |-> cons, skel |-> j, app |-> app, ver |-> ver],
          prog |-> << Pragma(ver) >> \o body]
 
-F1Radix == << 10, 6, 2, 4, 3, 6, NSkel, 2, 6 >>
+F1Radix == << 10, 6, 2, 6, 3, 6, NSkel, 2, 6 >>
 F1Random(k) == F1Case("f1", k, [i \in 1..Len(F1Radix) |-> Rnd(k, 1, i, F1Radix[i])])
 
 (* sentinels: the shapes named in the properties, always part of a quick run:
@@ -191,7 +202,7 @@ F1SentinelDigits ==
 
 -----------------------------------------------------------------------------
 (* Family f2: two checks, joined in one block by && / || or placed in two holes *)
-F2Joins == << "and", "or", "seq", "holes" >>
+F2Joins == << "and", "or", "seq", "holes", "or_then" >>
 F2Pairs == << << R("txn", "RekeyTo", 0), R("txn", "Fee", 0) >>,
               << R("txn", "TypeEnum", 0), R("txn", "CloseRemainderTo", 0) >>,
               << R("txn", "TypeEnum", 0), R("txn", "AssetCloseTo", 0) >>,
@@ -218,12 +229,17 @@ F2Case(fam, k, d) ==
         r1   == Hole1Region(j)
         r2   == Hole2Region(j)
         both == CondSeq(cmpA) \o CondSeq(cmpB) \o << Op(IF join = "and" THEN "&&" ELSE "||") >> \o Nots(d[9])
+        \* or_then: `A || B` asserted, then a free choice depending on A alone (both arms continue)
+        orThen(sfx, r) == Consume(CondSeq(cmpA) \o CondSeq(cmpB) \o << Op("||") >>, "assert", sfx, r)
+                          \o CondSeq(cmpA) \o << Bnz("ot" \o sfx) >> \o Filler \o << Lab("ot" \o sfx) >>
         K1   == CASE join \in {"and", "or"} -> Consume(both, cons, "a", r1)
                   [] join = "seq"   -> Stmt(cmpA, cons, "a", r1) \o Stmt(cmpB, cons, "c", r1)
                   [] join = "holes" -> Stmt(cmpA, cons, "a", r1)
+                  [] join = "or_then" -> orThen("a", r1)
         K2   == CASE join \in {"and", "or"} -> Consume(both, cons, "b", r2)
                   [] join = "seq"   -> Stmt(cmpA, cons, "b", r2) \o Stmt(cmpB, cons, "d", r2)
                   [] join = "holes" -> Stmt(cmpB, cons, "b", r2)
+                  [] join = "or_then" -> orThen("b", r2)
         tm   == IF r1 = "m" \/ (SkelUsesK2(j) /\ r2 = "m") THEN FailTail(cons, "m") ELSE << >>
         ts   == IF r1 = "s" \/ (SkelUsesK2(j) /\ r2 = "s") THEN FailTail(cons, "s") ELSE << >>
         app  == d[12] = 1
@@ -237,10 +253,11 @@ F2Case(fam, k, d) ==
                    join |-> join, neg |-> d[9], cons |-> cons, skel |-> j, app |-> app, ver |-> ver],
          prog |-> << Pragma(ver) >> \o body]
 
-F2Radix == << 12, 6, 2, 4, 6, 2, 4, 4, 2, 6, NSkel, 2 >>
+F2Radix == << 12, 6, 2, 6, 6, 2, 6, 5, 2, 6, NSkel, 2 >>
 F2Random(k) == F2Case("f2", k, [i \in 1..Len(F2Radix) |-> Rnd(k, 2, i, F2Radix[i])])
 F2SentinelDigits ==
     { << p, 0, 0, 0, 0, 0, 0, jn, n, 0, 0, 0 >> : p \in 0..11, jn \in 0..2, n \in 0..1 }
+    \cup { << p, 0, 0, 1, 0, 0, 3, 4, 0, 0, j, 0 >> : p \in {3, 8, 9, 11}, j \in {0, 1} }   \* or_then on one field, two literals
     \cup { << 5, 4, 0, 1, 3, 0, 2, jn, 0, 0, 0, 0 >> : jn \in 0..2 }   \* Fee > 1000 && Fee <= 272000
 
 -----------------------------------------------------------------------------
@@ -286,7 +303,7 @@ F3Case(fam, k, d) ==
                    cons |-> cons, skel |-> j, app |-> app, ver |-> ver],
          prog |-> << Pragma(ver) >> \o body]
 
-F3Radix == << 7, 7, 4, 6, 2, 4, 6, 6, NSkel, 2, 2 >>
+F3Radix == << 7, 7, 4, 6, 2, 6, 6, 6, NSkel, 2, 2 >>
 F3Random(k) == F3Case("f3", k, [i \in 1..Len(F3Radix) |-> Rnd(k, 3, i, F3Radix[i])])
 F3SentinelDigits ==
     { << f, kd, ix, 0, 0, 0, g, 0, 0, 0, 0 >> : f \in 0..2, kd \in 0..6, ix \in 0..1, g \in 0..5 }
